@@ -158,6 +158,21 @@ class State:
         return not m.is_bottom()
 
 
+def join_obj(objs):
+    """common object tag of several atoms; an optional instance (None | inst C) is treated as inst C -- dereferencing None
+    is not an arithmetic sink and is outside this analysis"""
+    objs = list(objs)
+    if not objs or any(o is None for o in objs):
+        return None
+    kinds = {o for o in objs}
+    if len(kinds) == 1:
+        return objs[0]
+    insts = {o for o in kinds if o[0] == 'inst'}
+    if len(insts) == 1 and kinds - insts == {('none',)}:
+        return next(iter(insts))
+    return None
+
+
 def join_states(states):
     """pointwise hull of several states into one."""
     states = [s for s in states if s is not None]
@@ -203,9 +218,9 @@ def join_states(states):
                 for s, a in zip(states, atoms):
                     iv = s.iv(a) if iv is None else I.join(iv, s.iv(a))
                 na = out.new(iv)
-                objs = [s.obj.get(a) for s, a in zip(states, atoms)]
-                if objs[0] is not None and all(o == objs[0] for o in objs):
-                    out.obj[na] = objs[0]
+                jo = join_obj([s.obj.get(a) for s, a in zip(states, atoms)])
+                if jo is not None:
+                    out.obj[na] = jo
                 # facts common to all states between this var and shared atoms
                 for b in list(shared_atoms)[:0]:
                     pass
@@ -268,7 +283,10 @@ class Flow:
 
 
 class Analyser:
-    def __init__(self, prog, axioms=None, max_depth=5, cap=64, param_finite=True):
+    def __init__(self, prog, axioms=None, max_depth=5, cap=64, param_finite=True, record_raises=False):
+        self.record_raises = record_raises
+        self.expr_axioms = {}      # (def_cls, function, expression text) -> Itv : hand-proved local range facts
+        self.expr_axioms_used = set()
         self.prog = prog
         self.axioms = axioms or {}
         self.max_depth = max_depth
@@ -302,7 +320,20 @@ class Analyser:
         m = getattr(self, 'ev_' + type(node).__name__, None)
         if m is None:
             return [(st, st.new(FULLTOP))]
-        return m(st, node)
+        res = m(st, node)
+        if self.expr_axioms and self.cur and isinstance(node, (ast.BinOp, ast.UnaryOp, ast.Call)):
+            key = (self.cur[-1][1], self.cur[-1][2], ast.unparse(node))
+            ax = self.expr_axioms.get(key)
+            if ax is not None:
+                self.expr_axioms_used.add(key)
+                out = []
+                for (s, a) in res:
+                    cur = s.iv(a)
+                    mm = I.meet(Itv(cur.lo, cur.hi, cur.lo_open, cur.hi_open, False, cur.isint, cur.empty), ax)
+                    na = s.new(Itv(mm.lo, mm.hi, mm.lo_open, mm.hi_open, False, cur.isint, mm.empty), d=s.defs.get(a))
+                    out.append((s, na))
+                return out
+        return res
 
     def ev_seq(self, st, nodes):
         outs = [(st, [])]
@@ -438,7 +469,19 @@ class Analyser:
     def binop(self, s, op, a, b, node):
         ia, ib = s.iv(a), s.iv(b)
         if isinstance(op, ast.Add):
-            return s.new(I.add(ia, ib), d=('add', a, b))
+            r = s.new(I.add(ia, ib), d=('add', a, b))
+            # a + b with b >= 0 is >= a (and symmetrically); strict when b > 0
+            for (x, ix, y, iy) in ((a, ia, b, ib), (b, ib, a, ia)):
+                if not iy.empty and not iy.nan and not ix.nan:
+                    if iy.gt0():
+                        s.rel.add(x, '<', r)
+                    elif iy.ge0():
+                        s.rel.add(x, '<=', r)
+                    if iy.lt0():
+                        s.rel.add(r, '<', x)
+                    elif iy.le0():
+                        s.rel.add(r, '<=', x)
+            return r
         if isinstance(op, ast.Sub):
             r = I.sub(ia, ib)
             sd = self.sign_of_diff(s, a, b)
@@ -459,8 +502,15 @@ class Analyser:
                             m = I.meet(Itv(r.lo, r.hi, r.lo_open, r.hi_open), Itv(0.0, I.INF, lo_open, False))
                             r = Itv(m.lo, m.hi, m.lo_open, m.hi_open, r.nan, r.isint, m.empty)
             at = s.new(r, d=('sub', a, b))
-            if ne or (not r.empty and r.nonzero()):
-                pass
+            if not ib.empty and not ib.nan and not ia.nan:
+                if ib.gt0():
+                    s.rel.add(at, '<', a)
+                elif ib.ge0():
+                    s.rel.add(at, '<=', a)
+                if ib.lt0():
+                    s.rel.add(a, '<', at)
+                elif ib.le0():
+                    s.rel.add(a, '<=', at)
             return at
         if isinstance(op, ast.Mult):
             if a == b:
@@ -783,6 +833,22 @@ class Analyser:
                         s.val[a] = m
                         out.append(s)
             return out
+        if isinstance(node, ast.Call) and ast.unparse(node.func) == 'isinstance' and len(node.args) == 2:
+            tnames = {ast.unparse(x) for x in (node.args[1].elts if isinstance(node.args[1], ast.Tuple) else [node.args[1]])}
+            if tnames & {'float', 'int'}:
+                out = []
+                for (s, (a,)) in self.ev_seq(st, node.args[:1]):
+                    o = s.obj.get(a)
+                    if o is None:
+                        # values of the analysed numeric programs are numbers (assumption, listed in the evidence)
+                        if truth:
+                            if tnames <= {'int'} and False:
+                                pass
+                            out.append(s)
+                    else:
+                        if not truth:
+                            out.append(s)
+                return out
         # generic truthiness
         out = []
         for (s, a) in self.ev(st, node):
@@ -974,6 +1040,9 @@ class Analyser:
         return Flow(returns=list(self.ev(st, node.value)))
 
     def st_Raise(self, st, node):
+        # an explicit range refusal inside a module-level helper (erf_inv, beta) reached from the analysed entry point
+        if self.record_raises and self.cur and self.cur[-1][0] == '<module>':
+            self.sink(node, 'raise', False, f'explicit `{ast.unparse(node)[:60]}` of {self.cur[-1][2]}() is reachable with these arguments')
         return Flow()
 
     def st_Break(self, st, node):
@@ -1059,6 +1128,8 @@ class Analyser:
         head = st
         prev = None
         exits = []
+        # the body certainly runs at least once when the entry state cannot falsify the test (s = 1.0; while s >= 1.0: ...)
+        at_least_once = test is not None and not self.assume(st.fork(), test, False)
         for it in range(8):
             body_in = self.assume(head.fork(), test, True) if test is not None else [head.fork()]
             f = self.block(body_in, body) if body_in else Flow()
@@ -1091,7 +1162,11 @@ class Analyser:
         body_in = self.assume(head.fork(), test, True) if test is not None else [head.fork()]
         f = self.block(body_in, body) if body_in else Flow()
         flow.returns += f.returns
-        exit_states = (self.assume(head.fork(), test, False) if test is not None else [head.fork()]) + f.breaks
+        if at_least_once:
+            after = join_states(list(f.normal + f.conts))
+            exit_states = (self.assume(after.fork(), test, False) if after is not None else []) + f.breaks
+        else:
+            exit_states = (self.assume(head.fork(), test, False) if test is not None else [head.fork()]) + f.breaks
         if test is None and not isinstance(node, ast.For):
             exit_states = f.breaks
         flow.normal = exit_states
@@ -1170,7 +1245,7 @@ class Analyser:
                 a = s.fld[f]
                 iv = s.iv(a) if iv is None else I.join(iv, s.iv(a))
                 o = s.obj.get(a)
-                obj = o if obj == 'unset' else (o if o == obj else None)
+                obj = o if obj == 'unset' else join_obj([o, obj])
             fields[f] = (iv, obj if obj != 'unset' else None)
         facts = None
         for s in states:
@@ -1251,6 +1326,17 @@ class Analyser:
         for (rs, ra) in res:
             iv = rs.iv(ra) if iv is None else I.join(iv, rs.iv(ra))
         return iv
+
+    def analyse_entry_states(self, cname, mname):
+        """like analyse_entry but returns the list of (state, returned atom) so that callers can query order facts"""
+        inv = self.class_invariant(cname)
+        st = self.instantiate(cname, inv)
+        saved = self.record
+        self.record = False
+        self.cur = [(cname, cname, '<entry>')]
+        res = self.call_method(st, cname, mname, [], {}, None, free_params=True)
+        self.record = saved
+        return res
 
     def analyse_ctor(self, cname):
         self.record = True
